@@ -523,7 +523,7 @@ func (obj *Package) Unexport(name string) {
 	obj.mu.Lock()
 	// TBD remove from Exports list
 	if obj.funcs != nil {
-		if fi := obj.funcs[name]; fi != nil {
+		if fi := obj.funcs[name]; fi != nil && fi.Pkg == obj {
 			fi.Export = false
 			for _, u := range obj.Users {
 				u.mu.Lock()
@@ -535,7 +535,7 @@ func (obj *Package) Unexport(name string) {
 		}
 	}
 	if obj.vars != nil {
-		if vv := obj.vars[name]; vv != nil {
+		if vv := obj.vars[name]; vv != nil && vv.Pkg == obj {
 			vv.Export = false
 			for _, u := range obj.Users {
 				u.mu.Lock()
